@@ -4,6 +4,7 @@ CONSTANTS
   ConRecs <- MC_ConRecs
   MaxCons = 2
   Methods <- MC_MethodsH
+  OptSets <- MC_OptSets
   FaultExcs <- MC_NoExcs
   OnlySuccess = TRUE
   EditInvalidates = TRUE
